@@ -9,7 +9,7 @@ and reads only its children's, every write to a mask row happens while the lock 
 a child of the running node, a node's own mask row is not written in its layer.  Results for
 n_jobs in {2,4,16,-1} are compared with n_jobs = 0.  Search: a stress schedule (many parents of one
 shared child, large batch, parallel `sample`) counts unfilled cells."""
-import threading, json, time
+import threading, time, json, time
 import numpy as np
 from . import common as C
 from . import circuits as G
@@ -20,6 +20,7 @@ HEADER = ["From Coq Require Import List ZArith QArith Qcanon.",
           "From DV Require Import Model.Core Model.Clt Model.Leaves Model.QcInst Model.Sched Model.SchedRun.",
           "Import ListNotations. Open Scope Z_scope."]
 
+AMPLIFY = dict(on=False, pause=0.002)
 _tl = threading.local()
 _events = []
 _ev_lock = threading.Lock()
@@ -39,11 +40,22 @@ class Traced(np.ndarray):
     def __getitem__(self, key):
         if self.top and isinstance(key, (int, np.integer)):
             _log("get", self.tag, int(key), getattr(_tl, "node", None), frozenset(getattr(_tl, "locks", ())))
+            if AMPLIFY["on"] and self.tag == "masks":
+                # race amplifier (failing-input search only): `masks[k] |= m` is a read-modify-write of row k; hand out a
+                # private copy and pause before the write-back.  Under mutual exclusion on row k the result is unchanged;
+                # without it another task's update made in the pause is overwritten (the lost update becomes observable).
+                row = np.array(super().__getitem__(key))
+                time.sleep(AMPLIFY["pause"])
+                return row
         return super().__getitem__(key)
 
     def __setitem__(self, key, value):
         if self.top and isinstance(key, (int, np.integer)):
             _log("set", self.tag, int(key), getattr(_tl, "node", None), frozenset(getattr(_tl, "locks", ())))
+            if AMPLIFY["on"]:
+                # write through the base-class view: ndarray's own item assignment may call the (copying) __getitem__ above
+                self.view(np.ndarray)[key] = value
+                return None
         return super().__setitem__(key, value)
 
 
@@ -225,6 +237,34 @@ def stress(seed, n_parents=16, n_rows=400000, reps=3):
     return out
 
 
+def directed_race(seed, n_parents=4, n_rows=64):
+    """failing-input search with the race amplifier: parallel sample / mpe on DAGs whose parents share a child; returns the
+    first circuit on which the parallel result differs from the sequential one (cells left unfilled), or None."""
+    from deeprob.spn.algorithms.sampling import sample
+    from deeprob.spn.algorithms.inference import mpe
+    rs = np.random.RandomState(seed % (2 ** 31))
+    found = None
+    AMPLIFY["on"] = True
+    try:
+        for kind in ("prod", "sum", "prod", "sum"):
+            root = shared_child_dag(rs, n_parents, n_vars=2, kind=kind)
+            tab = G.Table(root); scope = sorted(tab.root_scope()); width = max(scope) + 1
+            x = np.full((n_rows, width), np.nan, dtype=np.float32)
+            for name, f in (("mpe", mpe), ("sample", sample)):
+                np.random.seed(7)
+                (y,), ev, lrec = instrumented(lambda: (f(root, x, n_jobs=n_parents),))
+                unfilled = int(np.isnan(y[:, scope]).sum())
+                if unfilled:
+                    found = dict(what=f"parallel {name} leaves missing cells unfilled under the amplified schedule (every read of a mask row "
+                                      "is followed by a pause before its write-back: a lost update of the shared child's mask)",
+                                 entry_point=name, n_jobs=n_parents, rows=n_rows, unfilled_cells=unfilled, circuit=tab.brief(),
+                                 sequential_unfilled=int(np.isnan(f(root, x, n_jobs=0)[:, scope]).sum()))
+                    return found
+    finally:
+        AMPLIFY["on"] = False
+    return found
+
+
 def main(tier, seed, replay=None):
     rep = C.Report(PID, tier, seed)
     rs = np.random.RandomState(seed % (2 ** 31))
@@ -294,9 +334,16 @@ def main(tier, seed, replay=None):
             nv += 1
             if nv <= 4:
                 w = stress(seed) if cs["problems"] else None
-                found = bool(code) or any("differs" in p["what"] or "unfilled" in p["what"] for p in cs["problems"]) or bool(w and w["unfilled_cells"])
+                dr = None
+                if cs["problems"] and not (w and w["unfilled_cells"]):
+                    try:
+                        dr = directed_race(seed)
+                    except Exception as e:
+                        dr = dict(what="directed race search raised", error=f"{type(e).__name__}: {e}")
+                found = (bool(code) or any("differs" in p["what"] or "unfilled" in p["what"] for p in cs["problems"])
+                         or bool(w and w["unfilled_cells"]) or bool(dr and dr.get("unfilled_cells")))
                 rep.violation(dict(kind="trace-conformance-or-layering-broken", layer_flags=code, tag=cs["tag"], circuit=cs["tab"].brief(),
-                                   implementation_layers=cs["layers"], problems=cs["problems"][:8], stress_search=w,
+                                   implementation_layers=cs["layers"], problems=cs["problems"][:8], stress_search=w, directed_race=dr,
                                    theorem_no_longer_applicable="C08_top_down_locked / C08_bottom_up (the recorded accesses are not the independent atomic actions the theorems assume)",
                                    note="layer flags: 1 layer sets differ from Model/Sched.v:layer_of, 2 not children-first, 4 number of layers, 8 edge not to a deeper layer"),
                               found_input=found)
